@@ -190,7 +190,7 @@ var propHarness = map[string]map[string][]string{
 	"C20": {"*": {"rdgen:output-dir"}},
 	"C15": {"*": {"randomness:entry-points"}},
 	"C17": {"*": {"randomness:symmetry"}},
-	"C16": {"*": {"randomness:monobit", "randomness:runs", "randomness:entry-points"}},
+	"C16": {"*": {"randomness:wellformed"}},
 	"C18": {"*": {"randomness:purity"}},
 	"C19": {"*": {"fft:constructor", "fft:dft-naive", "fft:inverse-roundtrip"}},
 	"C05": {"*": {"randomness:dft"}},
